@@ -134,6 +134,9 @@ class Interp:
 
     def run(self, fnode, env):
         env = dict(env)
+        # names every module may use without the analysis having to know: tokens
+        for k, v in (("typing.Any", "<Any>"), ("Any", "<Any>"), ("object", "<object>")):
+            env.setdefault(k, v)
         self.steps = 0
         try:
             self.block(fnode.body, env)
